@@ -62,6 +62,7 @@ package data
 //@ spec carryPos(v []int, w []int, k int) int = ite(k < 0, -1, ite(v[k] + 1 < w[k], k, carryPos(v, w, k-1)))
 
 //@ func Product(ix) returns (r)
+//@   locals result, v
 //@   canary [C02.canary-product] r == 1
 //@   safety C02
 //@   assigns nothing
@@ -69,6 +70,7 @@ package data
 //@   loop 0 invariant -1 <= rangeindex && rangeindex < len(ix) && result == iprod(ix, rangeindex + 1)
 
 //@ func dotProduct(lhs, rhs) returns (r)
+//@   locals result, i
 //@   safety C02
 //@   requires len(rhs) >= len(lhs)
 //@   assigns nothing
@@ -76,6 +78,7 @@ package data
 //@   loop 0 invariant 0 <= i && i <= len(lhs) && result == idot(lhs, rhs, i)
 
 //@ func Multiply(lhs, rhs) returns (r)
+//@   locals result, i
 //@   safety C02
 //@   requires len(rhs) >= len(lhs)
 //@   fresh r
@@ -84,6 +87,7 @@ package data
 //@   loop 0 invariant 0 <= i && i <= len(lhs) && len(result) == len(lhs) && forall(k, 0, i, result[k] == lhs[k]*rhs[k])
 
 //@ func decrement(vector) returns (r)
+//@   locals result, i
 //@   safety C02
 //@   fresh r
 //@   assigns nothing
@@ -91,6 +95,7 @@ package data
 //@   loop 0 invariant 0 <= i && i <= len(vector) && len(result) == len(vector) && forall(k, 0, i, result[k] == vector[k] - 1)
 
 //@ func Increment(vector, wrt)
+//@   locals dims, i
 //@   noalias
 //@   safety C02
 //@   requires len(vector) >= len(wrt)
@@ -105,6 +110,7 @@ package data
 //@   loop 0 invariant carryPos(old(seq(vector)), seq(wrt), dims-1) == carryPos(old(seq(vector)), seq(wrt), i)
 
 //@ func Argmax(vector) returns (r)
+//@   locals res, maxFound, i, v
 //@   safety C02
 //@   requires len(vector) >= 1
 //@   assigns nothing
@@ -114,6 +120,7 @@ package data
 //@   loop 0 invariant forall(k, 0, rangeindex + 2, vector[k] <= maxFound) && forall(k, 0, res, vector[k] < maxFound)
 
 //@ func Maximum(vector) returns (r)
+//@   locals res, v
 //@   safety C02
 //@   requires len(vector) >= 1
 //@   assigns nothing
@@ -122,6 +129,7 @@ package data
 //@   loop 0 invariant forall(k, 0, rangeindex + 2, vector[k] <= res) && exists(k, 0, rangeindex + 2, vector[k] == res)
 
 //@ func Offsets(dims) returns (r)
+//@   locals res, i
 //@   safety C02
 //@   requires len(dims) >= 1
 //@   fresh r
@@ -135,6 +143,7 @@ package data
 //@   loop 0 invariant implies(forall(k, 0, len(dims), dims[k] >= 1), forall(k, i+1, len(dims), res[k] >= 1))
 
 //@ func IDivMod(numerator, denominators, modulator) returns (r)
+//@   locals res, i
 //@   safety C02
 //@   requires len(modulator) >= len(denominators)
 //@   requires forall(k, 0, len(denominators), denominators[k] != 0 && modulator[k] != 0)
@@ -153,6 +162,7 @@ package data
 //@ types {T} = ArrayType, Float64, Float32, Int32, Uint32, Int64, Uint64, Int, Uint
 
 //@ func (*Nd{T}Common).Index(nd, loc) returns (r)
+//@   locals result, i
 //@   canary [C01.canary-index] r == nd.Start
 //@   safety C01
 //@   requires len(loc) <= len(nd.OffsetStep)
@@ -198,6 +208,7 @@ package data
 //@   ensures [C01.set-header-untouched] nd.Start == old(nd.Start) && nd.OffsetStep == old(nd.OffsetStep) && nd.Dims == old(nd.Dims) && nd.Impl == old(nd.Impl)
 
 //@ func (*nd{t}).Slice(nd, loc, dims, step) returns (r)
+//@   locals result
 //@   safety C01
 //@   requires len(nd.Offset) == len(nd.OffsetStep) && len(nd.Step) == len(nd.OffsetStep) && len(loc) <= len(nd.OffsetStep)
 //@   requires step == nil || len(step) >= len(nd.OffsetStep)
@@ -221,6 +232,7 @@ package data
 //@   ensures [C01.set1-footprint] nd.Impl[nd.Start + loc*nd.OffsetStep[0]] == val && forall(p, 0, len(nd.Impl), implies(p != nd.Start + loc*nd.OffsetStep[0], nd.Impl[p] == old(nd.Impl[p])))
 
 //@ func (*nd{t}).Get1(nd, loc) returns (r)
+//@   locals idx, i
 //@   safety C01
 //@   requires len(nd.Dims) == 1 && len(nd.OffsetStep) >= 1
 //@   requires 0 <= nd.Start + loc*nd.OffsetStep[0] && nd.Start + loc*nd.OffsetStep[0] < len(nd.Impl)
@@ -260,6 +272,7 @@ package data
 // ---- constructors establish a well-formed root view (origin 0, steps 1, row-major offsets) ----
 
 //@ func arrayFromSlice{t}(data, dims) returns (r)
+//@   locals result
 //@   safety C01
 //@   requires len(dims) >= 1
 //@   fresh r
@@ -271,6 +284,7 @@ package data
 //@   ensures [C01.root-no-alias] r.OffsetStep.id != data.id && r.Offset.id != data.id && r.Step.id != data.id
 
 //@ func newArray{t}(dims) returns (r)
+//@   locals size, impl
 //@   safety C01
 //@   requires len(dims) >= 1 && iprod(dims, len(dims)) >= 0
 //@   fresh r
@@ -296,6 +310,7 @@ package data
 //@ spec agree(d []int, o []int, k int, n int) bool = ite(k >= n, true, d[k] == o[k] && agree(d, o, k+1, n))
 
 //@ func (*Nd{T}Common).Contiguous(nd) returns (r)
+//@   locals i, contiguousOffset, dimsMustBeOne
 //@   safety C02
 //@   requires len(nd.OriginalDims) >= len(nd.Dims) && len(nd.Step) >= len(nd.Dims) && len(nd.Offset) >= len(nd.Dims)
 //@   assigns nothing
@@ -383,6 +398,7 @@ package data
 //@ spec contigc(d []int, od []int, st []int, of []int, n int) bool = forall(k, 0, n, implies(d[k] > 1, agree(d, od, k+1, n) && st[k] <= 1 && of[k] <= pfrom(d, k+1, n)))
 
 //@ func (*nd{t}).Unroll(nd) returns (r)
+//@   locals s, e, length, res, dimOffsets, i, loc
 //@   simplify entry-ids
 //@   safety C02
 //@   chain ensures
@@ -414,6 +430,7 @@ package data
 //@ induct [C01.lemma-run-first] (base int, step int, os int) z : runaddr(base, 0, step, os) == base
 //@ induct [C01.lemma-run-injective] (base int, j1 int, j2 int, step int, os int) z : implies(step >= 1 && os >= 1 && j1 != j2, runaddr(base, j1, step, os) != runaddr(base, j2, step, os))
 //@ func (*nd{t}).Apply(nd, loc, dim, step, vals)
+//@   locals sliceDim, sliceStep, slice, concrete, implSlice, subset, start, i, v
 //@   simplify entry-ids
 //@   safety C01
 //@   callsite Set instantiate C01.lemma-idot-upd(old(seq(loc)), seq(loc), seq(nd.OffsetStep), dim, len(loc))
@@ -515,6 +532,7 @@ package data
 // the same for every row-major position of the block (induction variable unused)
 //@ induct [C01.lemma-sladdr-rmaddr-all] using C01.lemma-sladdr-rmaddr (d []int, os []int, st []int, ns int, w []int, N int) z : implies(forall(k, 0, N, w[k] == sstride(os, st, ns, k)), forall(j, 0, iprod(d, N), rmaddr(d, w, j, N, N) == sladdr(d, os, st, ns, j, N, N)))
 //@ func (*nd{t}).ApplySlice(nd, loc, step, vals)
+//@   locals shape, slice, idx, size, pos
 //@   ndmodel rowmajor
 //@   simplify entry-ids
 //@   bounded rank <= 3 (the mixed-radix successor lemma is proved for ranks 1, 2 and 3; extents, strides and steps are symbolic)
@@ -564,6 +582,7 @@ package data
 
 // ---- Reshape: the same elements in the same row-major order under new extents (C02) ----
 //@ func (*nd{t}).Reshape(nd, newShape) returns (r, err)
+//@   locals result, size, currentSize, reshapeToSeries, seriesDim
 //@   safety C02
 //@   simplify entry-ids
 //@   chain ensures
@@ -600,6 +619,7 @@ package data
 //@   ensures [C02.reshapefast-rowmajor] implies(err.isnil && iprod(newShape, len(newShape)) > 1, forall(j, 0, iprod(newShape, len(newShape)), as(r, nd{t}).Impl[as(r, nd{t}).Start + rmaddr(newShape, as(r, nd{t}).OffsetStep, j, len(newShape), len(newShape))] == nd.Impl[nd.Start + rmaddr(nd.Dims, nd.OffsetStep, j, len(nd.Dims), len(nd.Dims))]))
 
 //@ func (*nd{t}).MustReshape(nd, newShape) returns (r)
+//@   locals result, e
 //@   safety C02
 //@   simplify entry-ids
 //@   requires len(newShape) >= 1 && forall(k, 0, len(newShape), newShape[k] >= 1)
@@ -631,6 +651,7 @@ package data
 //@   ensures r != nil && r.rank == len(dims) && r.g_shapeid == dims.id && forall(j, 0, len(data), r.at(j) == data[j])
 
 //@ func AddTo{T}Array(dest, source)
+//@   locals destSlice, sourceSlice, i, idx, shape, size, pos
 //@   ndmodel rowmajor/rav
 //@   simplify entry-ids
 //@   bounded rank <= 3 (mixed-radix successor lemma per rank)
@@ -659,6 +680,7 @@ package data
 
 // fn is modelled as a pure, deterministic function of its argument (A-PURE-FN)
 //@ func ApplyFunc1{T}(dest, source, fn)
+//@   locals destSlice, sourceSlice, i, idx, shape, size, pos
 //@   ndmodel rowmajor/rav
 //@   simplify entry-ids
 //@   bounded rank <= 3 (mixed-radix successor lemma per rank)
